@@ -1,4 +1,5 @@
 import PvModel.Props.C10
+import PvModel.Props.C04Rel
 #print axioms Pv.C10_union
 #print axioms Pv.C10_union_inv
 #print axioms Pv.C10_union_mem
@@ -6,3 +7,4 @@ import PvModel.Props.C10
 #print axioms Pv.C10_frame
 #print axioms Pv.C10_mplus_states
 #print axioms Pv.C10_no_leak
+#print axioms Pv.C10_rel_union
